@@ -6,7 +6,7 @@ from props import c16_html as c
 from vlib import sut
 from vlib.runner import Violation, watchdog
 
-PIECES = ['Wort', 'a', '<b>', '&amp;', '"q"', 'x > y', '\n', '\n', ' ', ' ', '\\textbf{T}', '$x$', 'é', '\t', '% c\n', "it's"]
+PIECES = ['Wort', 'a', '<b>', '&amp;', '"q"', 'x > y', '\n', '\n', ' ', ' ', '\\textbf{T}', '$x$', 'é', '\t', '% c\n', "it's", '\x0c', '\u2028', '\\%', '\\&']
 
 
 def gen(rnd):
